@@ -134,7 +134,7 @@ pub fn sweeps(c: &Corpus, lay: &Layout, base: &FieldMap, r: &mut Rng, thorough: 
         out.push(("ReqI".into(), m));
     }
     let g = c.gen();
-    let o = GenOpts { text: TextMode::AsciiPlacement, max_list: None, boundary: 0 };
+    let o = GenOpts { text: TextMode::AsciiPlacement, max_list: None, boundary: 0, hostile: false };
     for f in &lay.fields {
         match &f.kind {
             Kind::Array(n, st) => {
@@ -366,7 +366,7 @@ pub fn run(ctx: &mut Ctx) -> (&'static str, String, bool) {
             let mut p = Part::new();
             let mut r = base_rng.fork(ki as u64);
             let g = c.gen();
-            let o = GenOpts { text: TextMode::AsciiPlacement, max_list: Some(3), boundary: 0 };
+            let o = GenOpts { text: TextMode::AsciiPlacement, max_list: Some(3), boundary: 0, hostile: false };
             let mut perturbed: BTreeSet<String> = BTreeSet::new();
             for _ in 0..bases {
                 let base = g.packet(&mut r, lay, &o);
@@ -376,7 +376,7 @@ pub fn run(ctx: &mut Ctx) -> (&'static str, String, bool) {
                     check_assignment(c, lay, &fm, &label, &mut p);
                 }
             }
-            let o2 = GenOpts { text: TextMode::AsciiPlacement, max_list: None, boundary: 6 };
+            let o2 = GenOpts { text: TextMode::AsciiPlacement, max_list: None, boundary: 6, hostile: false };
             for i in 0..randoms {
                 let fm = g.packet(&mut r, lay, &o2);
                 check_assignment(c, lay, &fm, "random-joint", &mut p);
